@@ -92,6 +92,12 @@ def shout(text, times=1):
 
 def typed(count: int, word: str = 'x') -> str:
     return word * count
+
+
+def deep(n):
+    if n <= 0:
+        return 100 // n
+    return deep(n - 1) + 1
 '''
 
 RISKS = {
@@ -110,6 +116,9 @@ RISKS = {
     'StopIteration': 'i0 = next(iter([]))',
     'OverflowError': 'i0 = int(math.exp(1000))',
     'ImportError': 'import module_that_does_not_exist_xyz',
+    'ZeroDivisionError-deep-recursion': 'i0 = deep(12)',
+    'IndexError-deep-chain': ('def _c0(v):\n    return v[5]\n' + ''.join('def _c%d(v):\n    return _c%d(v)\n' % (k, k - 1) for k in range(1, 10))
+                              + 'i0 = _c9([1, 2])'),
     'NameError-in-annotation': 'def _annotated(v: UndefinedTypeName) -> int:\n    return 1',
 }
 
@@ -401,13 +410,13 @@ def input_queue():
     return st.lists(st.sampled_from(['5', '12', 'hello', '0', '-3', ' 7 ', 'x y', '', '3', '41']), max_size=5)
 
 
-ARG_VALUES = ['0', '1', '-7', '10 ** 30', '2.5', '-0.0', '0.1 + 0.2', '1e-07', '123456.789012345', '2 / 3', "float('nan')", "float('inf')", "-float('inf')", 'True', 'None', "''", "'abc'", "'x' * 300",
+ARG_VALUES = ['0', '1', '-7', '9', '40', '10 ** 30', '2.5', '-0.0', '0.1 + 0.2', '1e-07', '123456.789012345', '2 / 3', "float('nan')", "float('inf')", "-float('inf')", 'True', 'None', "''", "'abc'", "'x' * 300",
               "'quote\'s \\ and \n newline'", '[]', '[1, 2, 3]', "[1, 'a', None, [2.5, (3,)]]", 'list(range(120))', '(1, 2)', '()', "('a',)",
               "{'a': 1, 'b': 2}", "{}", "{1: [1, 2], 'k': {'z': None}}", '{1, 2, 3}', 'set()', 'frozenset({1})', "[float('nan')]", "{'v': float('inf')}",
               "b'bytes'", '(1+2j)', 'range(3)', "'naïve ✓'"]
 CALLABLES = {  # name -> (min args, max args, accepts kwargs)
     'echo': (1, 1, False), 'pair': (1, 4, True), 'first': (1, 1, False), 'total': (1, 1, False), 'h0': (1, 2, False),
-    'fact': (1, 1, False), 'bump': (0, 1, False), 'describe': (1, 2, False), 'shout': (1, 2, False), 'Acc': (1, 1, False),
+    'fact': (1, 1, False), 'deep': (1, 1, False), 'bump': (0, 1, False), 'describe': (1, 2, False), 'shout': (1, 2, False), 'Acc': (1, 1, False),
 }
 
 
